@@ -1,0 +1,14 @@
+// SPDX-FileCopyrightText: 2026 The Pion community <https://pion.ly>
+// SPDX-License-Identifier: MIT
+
+//go:build verif
+
+package stats
+
+import "github.com/pion/logging"
+
+// C01NewRecorder returns the package's default Recorder (newRecorder is not exported); the
+// C01 harness wraps it to learn when Start has run.
+func C01NewRecorder(ssrc uint32, clockRate float64, lf logging.LoggerFactory) Recorder {
+	return newRecorder(ssrc, clockRate, lf)
+}
